@@ -5,7 +5,8 @@ import vlib
 
 RING_HARNESS = ["kfmt/c16rb_ring_test.go"]
 HAL_HARNESS = ["hal/c16_bringup_test.go"]
-HAL_SHIM = {"kernel/device/zz_verif_c16_device_shim.go": "hal/c16_device_shim.go"}
+HAL_SHIM = {"kernel/device/zz_verif_c16_device_shim.go": "hal/c16_device_shim.go",
+            "kernel/device/tty/zz_verif_c16_tty_shim.go": "hal/c16_tty_shim.go"}
 UNITS = [341, 7, 680]
 
 
@@ -103,7 +104,13 @@ def run_hal(ctx, d, q):
     casesf = os.path.join(ctx.work, "c16_hal_cases.ndjson")
     sel = os.path.join(ctx.work, "c16_hal_sel.ndjson")
     allc = unwrap(casesf)
-    chosen = pick(allc, 600 if q else 0, ctx.seed)
+    # quick tier: every scenario with >= 3 drivers and no environment chunk (all orders of several terminals / consoles /
+    # failing drivers) is always replayed; the rest is a seeded sample
+    if q:
+        core = [c for c in allc if len(c["drv"]) >= 3 and not c["prints"]]
+        chosen = core + pick([c for c in allc if not (len(c["drv"]) >= 3 and not c["prints"])], 500, ctx.seed)
+    else:
+        chosen = allc
     with open(sel, "w") as f:
         for i, c in enumerate(chosen):
             c["unit"] = UNITS[(i + ctx.seed) % 3]
@@ -138,7 +145,7 @@ def run_hal(ctx, d, q):
         ev = m["case_events"]
         bad = ev[m["line_in_case"] - 1]
         if bad.get("k") == "end":
-            bad = {k: v for k, v in bad.items() if k not in ("shown", "ring")}
+            bad = {k: v for k, v in bad.items() if k not in ("shown", "ring", "held")}
         ctx.violation({"leg": ev[0].get("leg"), "part": "hal bring-up", "mismatch": m["mismatch"], "scenario": ev[0].get("sc"), "event": bad},
                       {"kind": "hal", "scenario": ev[0].get("sc")})
 
@@ -156,14 +163,15 @@ def run(ctx):
         "the HAL's own log messages are ASCII; everything the environment logs is >= 128 (serial pattern), which is how the monitor follows the log without depending on message wording",
         "a failed driver counts as reported when its name or its error message occurs on the log (checked when nothing could have been dropped)",
         "'nothing dropped' is demanded when fewer than 2047 bytes precede the first post-link byte on the terminal (upper bound of the ring fill at link time); byte-exact drop-oldest semantics of the ring itself is the RingBuf part",
-        "terminals are the real tty.VT behind a recording wrapper, consoles are recording mocks without font/logo support; device registry reset through the overlay shim harness/hal/c16_device_shim.go",
+        "terminals are the real tty.VT (900 lines of scrollback) behind a recording wrapper, consoles are recording mocks without font/logo support; device registry reset through the overlay shim harness/hal/c16_device_shim.go; what a terminal HOLDS at the end is read from the real VT buffer through harness/hal/c16_tty_shim.go",
+        "the active pair must be attached exactly once: a second AttachTo of the active terminal blanks it (tty.VT) and is a violation",
         "trusted Go: scenario decoder, mock drivers and event logger in harness/hal, segment encoder in harness/kfmt/c16rb_ring_test.go",
     ]
     d = ctx.spec_dir("kfmt", "hal")
     ring_scripts = os.path.join(ctx.work, "c16_ring_scripts.ndjson")
     hal_cases = os.path.join(ctx.work, "c16_hal_cases.ndjson")
     rbugs = ["NoPushR", "SecondFirst"] if q else ["NoPushR", "SecondFirst", "NoWrapReset", "OffByOneFull"]
-    hbugs = ["NoSort", "NoDrain"] if q else ["NoSort", "ActiveBeforeErr", "LaterConsoleWins", "LaterTTYWins", "NoDrain", "NoReport", "DrainTwice"]
+    hbugs = ["NoSort", "NoDrain", "Relink"] if q else ["NoSort", "ActiveBeforeErr", "LaterConsoleWins", "LaterTTYWins", "NoDrain", "NoReport", "DrainTwice", "Relink"]
 
     # ---- leg M: both design models against their monitors (they also emit the behaviours for leg G) + design mutants;
     #      the ring's legs G/T/V run beside them as soon as its scripts exist
@@ -188,7 +196,7 @@ def run(ctx):
         run_hal(ctx, d, q)
     ctx.cov["exhaustive"] = (not q) and not ctx.violations
     ctx.cov["explanation"] = ("exhaustive = every behaviour TLC enumerated for the two small-scope models was replayed on the real code and judged "
-                              "(thorough tier); the quick tier replays seeded samples (900 ring scripts, 600 bring-up scenarios)")
+                              "(thorough tier); the quick tier replays seeded samples (900 ring scripts; every 3-driver bring-up scenario without chunks plus 500 sampled ones)")
 
 
 def replay(ctx, path):
